@@ -44,6 +44,14 @@ PropC05(e) == e.ev = "parse" =>
   /\ (e.errs = <<>>) = (m.errs = <<>>)            \* an unrepresentable literal is an error, a representable one is not
   /\ Real(e).msgs = m.msgs                         \* exactly the denoted values, in order, in items of the written types
   /\ e.errs # <<>> => e.msgs = <<>>
+\* TLC -> Go: a spelling MCLiteral enumerated; `want` says, from the bits of the value, whether an item of the written type
+\* takes it and what the item then holds
+PropC05x(e) == (e.ev = "parse" /\ "want" \in DOMAIN e) =>
+  /\ e.outcome = "returned"
+  /\ e.text = e.want.text
+  /\ (e.errs = <<>>) = e.want.ok
+  /\ e.want.ok => Len(e.msgs) = 1 /\ e.warns = <<>> /\ Real(e).msgs[1].item = e.want.item
+  /\ ~e.want.ok => e.msgs = <<>>
 PropC15(e) == PropC05(e) /\ (e.ev = "parse" => Real(e).errs = Model(e).errs)      \* ... reported at the declaration
 
 \* ------------------------------------------------------------------ model agreement (drift only)
@@ -150,6 +158,7 @@ PropCp(e) == e.ev = "cpivl" =>
 InvCp == l > 0 => PropCp(E)
 InvC06 == l > 0 => PropC06(E)
 InvC05 == l > 0 => PropC05(E)
+InvC05x == l > 0 => PropC05x(E)
 InvC15 == l > 0 => PropC15(E)
 InvAgreeParse == l > 0 => AgreeParse(E)
 InvAgreeLex == l > 0 => AgreeLex(E)
